@@ -22,17 +22,26 @@ fn self_ptr(h: &LeanString) -> *const u8 {
 // C08: cloning is O(1)
 // ---------------------------------------------------------------------------------------------
 /// `how`: 0 clone, 1 clone_from into an inline handle, 2 clone_from into a heap handle (whose
-/// old buffer must be released exactly then), 3 From<&LeanString>, 4 to_lean_string().
+/// old buffer must be released exactly then), 3 From<&LeanString>, 4 to_lean_string(),
+/// 5 clone_from into a handle that already shares the source's buffer but carries a shorter length.
 pub fn clone_o1(kind: u8, fam: u8, n0: usize, cap: usize, ns: u8, len: usize, la: usize, lb: usize, tgt_clone: bool, how: u8, tf: bool) {
     let mut s = build(kind, fam, n0, cap, ns, len, la, lb, tgt_clone);
     let p = s.t.as_str().as_ptr();
     let src_inline = p == self_ptr(&s.t);
-    let mut dst = if how == 2 { LeanString::from("ZZZZZZZZZZZZZZZZZZZZ") } else { LeanString::from("zz") };
+    let mut dst = if how == 2 {
+        LeanString::from("ZZZZZZZZZZZZZZZZZZZZ")
+    } else if how == 5 {
+        let mut d = s.t.clone();
+        d.truncate(0);
+        d
+    } else {
+        LeanString::from("zz")
+    };
     let before = shim::snap();
     shim::forbid(true);
     let c: LeanString = match how {
         0 => s.t.clone(),
-        1 | 2 => {
+        1 | 2 | 5 => {
             dst.clone_from(&s.t);
             core::mem::replace(&mut dst, LeanString::new())
         }
@@ -697,6 +706,28 @@ pub fn two_texts(n1: usize, n2: usize, h1: u8, h2: u8, with_owned: bool) {
     drop(ka);
     drop(kb);
     kani::cover!(true, "end of harness reached");
+}
+
+/// Two handles on ONE buffer (heap or static) with different handle-local lengths: == is false,
+/// the order is that of a proper prefix, hashes follow the texts.
+pub fn shared_prefix(kind: u8, fam: u8, n: usize) {
+    let s = build(kind, fam, n, 0, 1, n, SYM, 0, false);
+    let a = &s.t;
+    let b = s.a.as_ref().unwrap();
+    let lb = b.len();
+    assert!(a.as_str().as_ptr() == b.as_str().as_ptr() || kind == K_INLINE, "[C17] harness: handles do not share a buffer");
+    if lb == n {
+        assert!(a == b && a.cmp(b) == core::cmp::Ordering::Equal, "[C17] equal texts on one buffer compare unequal");
+    } else {
+        assert!(a != b && !(a == b), "[C17] a text equals its own proper prefix");
+        assert!(a.cmp(b) == core::cmp::Ordering::Greater && b.cmp(a) == core::cmp::Ordering::Less, "[C17] a text does not order after its own proper prefix");
+        assert!(a > b && b < a && a.partial_cmp(b) == Some(core::cmp::Ordering::Greater), "[C17] </> on a text and its proper prefix");
+    }
+    let sb: &str = b.as_str();
+    assert!(fnv_of(b) == fnv_of(sb), "[C17] hash of the shorter handle differs from its str hash");
+    kani::cover!(lb < n, "proper prefix");
+    kani::cover!(lb == n, "same length");
+    epilogue(s, true);
 }
 
 /// Debug on concrete text equals str's Debug (escape tables are not made symbolic).
